@@ -310,7 +310,12 @@ func TestC13_Migrate(t *testing.T) {
 			chid := r.chid(self)
 			st, ok := listed[chid]
 			if !ok {
-				mfail(t, log, "C13/channel-missing", "record %d (%s) not listed after migration", i, chidStr(chid))
+				key := "C13/channel-missing"
+				if p := os.Getenv("VERIF_PROP"); p != "" && p != "C13" {
+					// the same observation, named for the property this run decides
+					key = p + "/channel-not-under-its-id-after-upgrade"
+				}
+				mfail(t, log, key, "record %d (%s) not listed after migration", i, chidStr(chid))
 			}
 			got, verr := vecOf(st)
 			if verr != nil {
